@@ -139,6 +139,12 @@ func runC16(p *Prog, r *Report) {
 	handshakeValidation(p, r, "C16.6/handshake-validation")
 	c16PipeErrors(p, r)
 	crashSurface(p, r, "C16.12/crash-surface")
+	{
+		reach := p.peerDriven()
+		nilSafe(p, r, "C16.25/nil-safe", "on every path driven by a peer (receive goroutines and their callees, handshake/accept, pipe attach/detach)", func(fn *ssa.Function) bool { return reach[fn] })
+		r.Floor("C16.25/nil-safe", "e12a.map_writes.C16.25/nil-safe", 8)
+		r.Floor("C16.25/nil-safe", "e12b.uses.C16.25/nil-safe", 8)
+	}
 	limitBeforeStart(p, r, "C16.17/limit-before-start")
 	r.Floor("C16.17/limit-before-start", "transport.handshake_starts", 6)
 }
